@@ -599,7 +599,77 @@ def main() -> int:
                           'not translated (hundreds of lines of descriptor arithmetic each) and not instantiable here (no f2py)',
                           'programs outside the enumerated/sampled set', 'non-finite data'],
     })
+    solve_t_part(rep, tier)
     return rep.finish()
+
+
+def solve_t_part(rep, tier: str) -> None:
+    """Second part: the generated `solve_t` SOURCE executed symbolically under the real FortranEngine wrapper (checks/fsolve.py)."""
+    from checks.fsolve import PROGRAMS, TWINS, explore_fsolve, fsolve_configs
+    from gram.family import show
+    cfgs = fsolve_configs(tier)
+    for i, c in enumerate(cfgs):
+        c['seed'] = vlib.seed() * 1000003 + i
+    results = vlib.pmap(vlib.guarded(explore_fsolve), cfgs)
+    tw = vlib.pmap(vlib.guarded(explore_fsolve), TWINS)
+    tot = {'paths': 0, 'sat': 0, 'unsat': 0, 'unknown': 0, 'solver_s': 0.0, 'mismatch_paths': 0, 'spurious': 0}
+    outcomes: Dict[str, int] = {}
+    calls: Dict[str, int] = {}
+    for cfg, r in zip(cfgs, results):
+        if 'harness_error' in r:
+            rep.error(f"solve_t part: {r['harness_error']} in config {r['item']}")
+            continue
+        if not r['exhausted'] or r['paths'] == 0:
+            rep.error(f'solve_t part: exploration not exhaustive / vacuous for {cfg}')
+        tot['paths'] += r['paths']
+        for k in ('sat', 'unsat', 'unknown'):
+            tot[k] += r['stats']['queries'].get(k, 0)
+        tot['solver_s'] += r['stats']['solver_s']
+        tot['mismatch_paths'] += r['mismatch_paths']
+        tot['spurious'] += r['spurious_under_uf']
+        for k, v in r['outcomes'].items():
+            outcomes[k] = outcomes.get(k, 0) + v
+        for k, v in r.get('shim_calls', {}).items():
+            calls[k] = max(calls.get(k, 0), v)
+        for cand in r['candidates']:
+            if cand['replay']['bad']:
+                key = (f"solve_t:{cfg['prog']},max_iter={cfg['B']},errors={cfg['errors']},failures={cfg['failures']},neg={cfg['neg']},"
+                       f"offset={cfg['offset']}:{cand['replay']['bad'][0][:90]}")
+                if cfg['B'] == 0:
+                    key = 'solve_t:max_iter=0:' + cand['replay']['bad'][0][:90]
+                rep.violation(key, '; '.join(cand['replay']['bad'][:4]) + f" | Python engine: {cand['replay']['python_engine']}",
+                              {'kind': 'fsolve', 'cfg': r['cfg'], 'inputs': cand['inputs'], 'text': cand['replay']['text'],
+                               'fortran_engine': cand['replay']['impl'], 'python_engine': cand['replay']['python_engine']})
+            else:
+                rep.error(f"solve_t part: solver counterexample did not reproduce on the machine code: cfg={r['cfg']} symbolic={cand['symbolic']}")
+    twin_rep = []
+    for cfg, r in zip(TWINS, tw):
+        hit = 'harness_error' not in r and any(c['replay']['bad'] for c in r['candidates'])
+        twin_rep.append({'twin': cfg['twin'], 'detected_and_replayed': hit})
+        if not hit:
+            rep.error(f"solve_t part: reachability twin {cfg['twin']!r} not detected: {str(r)[:200]}")
+    cov = rep.coverage
+    cov['evaluations'] = cov.get('evaluations', 0) + tot['paths']
+    cov['paths'] = cov.get('paths', 0) + tot['paths']
+    for k in ('sat', 'unsat', 'unknown'):
+        cov['queries'][k] = cov['queries'].get(k, 0) + tot[k]
+    cov['solver_s'] = round(cov.get('solver_s', 0.0) + tot['solver_s'], 2)
+    cov['functions_encoded'] = list(cov.get('functions_encoded', [])) + [
+        'generated Fortran SOURCE of solve_t and evaluate (parsed and executed by fsrc)', 'fsic.fortran.FortranEngine.solve_t (real code, on top)']
+    cov['solve_t_part'] = {
+        'configurations': len(cfgs), 'joint_paths': tot['paths'], 'mismatch_paths': tot['mismatch_paths'], 'spurious_under_uf': tot['spurious'],
+        'models': {k: show(v) for k, v in PROGRAMS.items()},
+        'bounds': {'max_iter': f"0..{2 if tier == 'quick' else 3}", 'min_iter': 'symbolic 0..max_iter+1', 'tol': 'any Float64', 'offset': 'symbolic -L-1..L+1 or 0',
+                   'span': 'lags + leads + 1 (+1) periods', 'positions': 'positive and negative', 'errors': ['raise', 'skip', 'ignore', 'replace'],
+                   'failures': ['raise', 'ignore'], 'values': 'every finite Float64 per cell and pass'},
+        'outcome_histogram': outcomes, 'subroutine_calls_max_per_config': calls, 'reachability_twin': twin_rep,
+        'replay': 'gfortran -shared build of the same source through ctypes with f2py\'s signatures, under the real wrapper, beside the real Python engine',
+    }
+    cov['outside_claim'] = [x for x in cov.get('outside_claim', []) if not x.startswith('the compiled solve_t and solve')] + [
+        'the Fortran `solve` routine (multi-period loop) and FortranEngine.solve()', 'non-finite data in the Fortran loop (C07 is stated for finite data; the engines differ there by design: replace)',
+        'infeasible periods and index errors inside the Fortran routines (the wrapper reports them as FortranEngineError)',
+        'gfortran\'s translation of the solve_t template to machine code (the SOURCE is interpreted; only counterexamples run on machine code)']
+    rep.assumptions = sorted(set(rep.assumptions) | {a for r in results if 'harness_error' not in r for a in r['assumptions']})
 
 
 if __name__ == '__main__':
